@@ -7,7 +7,7 @@ THEOREMS = {
         "Dawgs.C03.Props.wellScoped_sound", "Dawgs.C03.Props.wellScoped_no_error", "Dawgs.C03.Props.wellScoped_no_unbound",
         "Dawgs.C03.Props.applyShape_match", "Dawgs.C03.Props.cte_columns_match",
         "Dawgs.C03.Props.params_closed", "Dawgs.C03.Props.missing_param_rejected", "Dawgs.C03.Props.c03_partial",
-        "Dawgs.C03.Props.c03_partial_S2", "Dawgs.C03.Props.tr_wellScoped", "Dawgs.C03.Props.c03_partial_S3", "Dawgs.C03.Props.c03_partial_S4",
+        "Dawgs.C03.Props.c03_partial_S2", "Dawgs.C03.Props.tr_wellScoped", "Dawgs.C03.Props.c03_partial_S3", "Dawgs.C03.Props.c03_partial_S4", "Dawgs.C03.Props.c03_partial_S5",
     ],
 }
 
@@ -269,6 +269,7 @@ MANIFEST = {
             "over a, r, b; both join orders, the frame pruned to the read bindings or complete, every combination of kind constraints, every list of conjuncts: Proofs/C03Frag.lean bPredAt — a lowered S1 predicate binds wherever its alias "
             "shows id / properties / kind column); c03_partial_S3 : forall flipOf flipCh prune, C03_for (C01.tr3F flipOf flipCh prune) adds stage S2c, chains of two or three hops (frames s0, s1[, s2] "
             "with the carried columns and the `!=` guards, final projection over the last frame: ChainB.tr_wellScopedCh); c03_partial_S4 : forall flipOf flipCh fast prune, C03_for (C01.tr4F flipOf flipCh fast prune) adds stage S1c, the two "
-            "count statements (fast path / node frame, with or without alias: CountB.tr_wellScopedCount): the statement passes the binder (wellScoped = true) under the schema with the empty parameter list. C03_full (the same for a total translator) is a visible, undischarged Prop.",
+            "count statements (fast path / node frame, with or without alias: CountB.tr_wellScopedCount); c03_partial_S5 adds stage S2n, count(x) over a hop frame "
+            "(CountHopB.tr_wellScopedCountHop): the statement passes the binder (wellScoped = true) under the schema with the empty parameter list. C03_full (the same for a total translator) is a visible, undischarged Prop.",
     "note": "Not a proof about the Go translator: per-output validation. PostgreSQL's scoping rules are a trusted Lean transcription of the documentation (no server in the sandbox).",
 }
